@@ -370,114 +370,126 @@ func rulePARSE23(p *Program) *RuleResult {
 	if err != nil {
 		return r.anchorFail(err)
 	}
+	env, err := newVisitorEnv(p)
+	if err != nil {
+		return r.anchorFail(err)
+	}
+	const op0, op1 = "operand:Expression(0)", "operand:Expression(1)"
 	for _, name := range binaryVisitors {
 		fn := vm[name]
 		if fn == nil {
 			return r.anchorFail(fmt.Errorf("anchor: %s not found", name))
 		}
-		vcs := visitCalls(fn)
-		byIdx := map[int]visitCallInfo{}
-		for _, vc := range vcs {
-			if vc.index >= 0 {
-				byIdx[vc.index] = vc
-			}
-		}
 		r.count("binary_visitors", 1)
-		l, okl := byIdx[0]
-		rr, okr := byIdx[1]
-		if !okl || !okr {
-			r.undecided(name+"|shape", "Visit(ctx.Expression(0)) / Visit(ctx.Expression(1)) not found", p.pos(fn.Pos()), "unsupported shape")
-			continue
+		toks := []string{""}
+		if m, ok := operatorNodeMap[name]; ok {
+			toks = sortedKeys(m)
 		}
-		// PARSE3: right operand visited with a clone, left with the visitor itself
-		if rr.cloned {
-			r.ok(name+"|clone", name+": the right operand is visited with v.clone()", p.instrPos(rr.call), "receiver of the second Visit is the result of clone()", true)
-		} else {
-			r.bad(name+"|clone", name+": the right operand is visited without resetting the root flag", p.instrPos(rr.call), "a resource type name at the start of the right operand is taken for a field name (root flag already set by the left operand)")
-		}
-		if l.cloned {
-			r.note("%s: the left operand is also visited with a clone", name)
-		}
-		// PARSE2: Left field ← Expression(0), Right field ← Expression(1); for sequences the slice order
-		for _, b := range fn.Blocks {
-			for _, ins := range b.Instrs {
-				st, ok := ins.(*ssa.Store)
-				if !ok {
+		cloneOK, cloneBad, leftCloned := false, "", false
+		fieldsSeen := map[string]string{} // field key -> "" (ok) or problem
+		nodes := 0
+		for _, tok := range toks {
+			vr := env.run(fn, tok, tok != "")
+			for _, o := range vr.visits {
+				switch {
+				case o.arg == op1 && o.recv == "visitor:clone":
+					cloneOK = true
+				case o.arg == op1:
+					cloneBad = "the right operand is visited by " + o.recv
+				case o.arg == op0 && o.recv == "visitor:clone":
+					leftCloned = true
+				}
+			}
+			for _, ret := range vr.rets {
+				if !ret.isVR || ret.err.k != kNil || ret.node.dyn == nil {
 					continue
 				}
-				switch a := st.Addr.(type) {
-				case *ssa.FieldAddr:
-					f := fieldName(a)
-					if !strings.Contains(typeShort(a.X.Type()), "expr.") {
-						continue
-					}
-					src := resultOrigin(st.Val, 0)
-					if src == nil {
-						continue
-					}
-					var want *ssa.Call
-					switch f {
-					case "Left":
-						want = l.call
-					case "Right", "Index":
-						want = rr.call
-					default:
-						continue
-					}
-					key := fmt.Sprintf("%s|%s.%s", name, typeShort(a.X.Type()), f)
-					if src == want {
-						r.ok(key, fmt.Sprintf("%s: %s is the result of operand %s", name, f, map[bool]string{true: "0", false: "1"}[f == "Left"]), p.instrPos(st), "provenance of the node field", true)
-					} else {
-						r.bad(key, fmt.Sprintf("%s: %s does not come from the expected operand", name, f), p.instrPos(st), "operands swapped: a op b is compiled as b op a")
-					}
-				case *ssa.IndexAddr:
-					// []expr.Expression{left, right}
-					k, ok := a.Index.(*ssa.Const)
-					if !ok {
-						continue
-					}
-					src := resultOrigin(st.Val, 0)
-					if src == nil {
-						continue
-					}
-					idx, _ := constant.Int64Val(k.Value)
-					if idx == 0 {
-						key := name + "|sequence[0]"
-						if src == l.call {
-							r.ok(key, name+": the sequence starts with the left operand", p.instrPos(st), "provenance", true)
-						} else {
-							r.bad(key, name+": the sequence does not start with the left operand", p.instrPos(st), "evaluation order of the chain is reversed")
+				nodes++
+				node := ret.node
+				nt := nodeTypeName(node)
+				check := func(field string, v aval, want string) {
+					key := fmt.Sprintf("%s|*expr.%s.%s", name, nt, field)
+					child, _ := visitedTag(v)
+					if child == want {
+						if _, seen := fieldsSeen[key]; !seen {
+							fieldsSeen[key] = ""
 						}
+					} else {
+						fieldsSeen[key] = fmt.Sprintf("%s of %s is %s, not the result of visiting %s (operator %q)", field, nt, v, want, tok)
 					}
 				}
+				if l, ok := nodeField(node, "Left"); ok {
+					check("Left", l, op0)
+				}
+				if rt, ok := nodeField(node, "Right"); ok {
+					check("Right", rt, op1)
+				}
+				if es, ok := nodeField(node, "Expressions"); ok {
+					if es.k == kSlice && len(es.elems) == 2 {
+						check("sequence[0]", es.elems[0], op0)
+						second := es.elems[1]
+						if ix, ok := nodeField(second, "Index"); ok {
+							key := fmt.Sprintf("%s|*expr.%s.Index", name, nodeTypeName(second))
+							if child, _ := visitedTag(ix); child == op1 {
+								if _, seen := fieldsSeen[key]; !seen {
+									fieldsSeen[key] = ""
+								}
+							} else {
+								fieldsSeen[key] = fmt.Sprintf("Index is %s, not the result of visiting %s", ix, op1)
+							}
+						} else {
+							fieldsSeen[name+"|sequence[1]"] = "the second element of the sequence is " + second.String() + ", not an index node"
+						}
+					} else {
+						fieldsSeen[name+"|sequence"] = "the sequence is " + es.String()
+					}
+				}
+			}
+		}
+		// PARSE3: right operand visited with a clone, left with the visitor itself
+		switch {
+		case cloneBad != "":
+			r.bad(name+"|clone", name+": "+cloneBad, p.pos(fn.Pos()), "a resource type name at the start of the right operand is taken for a field name (root flag already set by the left operand)")
+		case cloneOK:
+			r.ok(name+"|clone", name+": the right operand is visited with v.clone()", p.pos(fn.Pos()), "the Visit of Expression(1) is observed with the clone as its receiver", true)
+		default:
+			r.undecided(name+"|shape", "no visit of ctx.Expression(1) observed", p.pos(fn.Pos()), "unsupported shape")
+		}
+		if leftCloned {
+			r.note("%s: the left operand is also visited with a clone", name)
+		}
+		if nodes == 0 || len(fieldsSeen) == 0 {
+			r.undecided(name+"|shape", "no node with operand fields is handed back", p.pos(fn.Pos()), "unsupported shape")
+			continue
+		}
+		var keys []string
+		for k := range fieldsSeen {
+			keys = append(keys, k)
+		}
+		sort.Strings(keys)
+		for _, k := range keys {
+			if fieldsSeen[k] == "" {
+				r.ok(k, name+": the operand field holds the result of visiting the matching child", p.pos(fn.Pos()), "provenance of the node field (tags carried by the modelled Visit results)", true)
+			} else {
+				r.bad(k, name+": "+fieldsSeen[k], p.pos(fn.Pos()), "operands swapped: a op b is compiled as b op a")
 			}
 		}
 	}
 	// invocation expression: [left, right] with ctx.Expression() and ctx.Invocation()
 	if fn := vm["VisitInvocationExpression"]; fn != nil {
+		vr := env.run(fn, "", false)
 		var order []string
-		for _, b := range fn.Blocks {
-			for _, ins := range b.Instrs {
-				st, ok := ins.(*ssa.Store)
-				if !ok {
-					continue
-				}
-				ia, ok := st.Addr.(*ssa.IndexAddr)
-				if !ok {
-					continue
-				}
-				src := resultOrigin(st.Val, 0)
-				if src == nil {
-					continue
-				}
-				arg := stripIface(src.Common().Args[1])
-				if ac, ok := arg.(*ssa.Call); ok && ac.Common().StaticCallee() != nil {
-					k, _ := ia.Index.(*ssa.Const)
-					order = append(order, fmt.Sprintf("%s=%s", k.Value.ExactString(), ac.Common().StaticCallee().Name()))
+		for _, ret := range vr.rets {
+			if !ret.isVR || ret.err.k != kNil {
+				continue
+			}
+			if es, ok := nodeField(ret.node, "Expressions"); ok && es.k == kSlice {
+				for i, e := range es.elems {
+					child, _ := visitedTag(e)
+					order = append(order, fmt.Sprintf("%d=%s", i, strings.TrimSuffix(strings.TrimPrefix(child, "operand:"), "()")))
 				}
 			}
 		}
-		sort.Strings(order)
 		if strings.Join(order, ",") == "0=Expression,1=Invocation" {
 			r.ok("VisitInvocationExpression|sequence", "a.b compiles to the sequence [a, b]", p.pos(fn.Pos()), "provenance of the slice elements", true)
 		} else {
@@ -517,71 +529,54 @@ func rulePARSE4(p *Program) *RuleResult {
 		names = append(names, n)
 	}
 	sort.Strings(names)
+	env, err := newVisitorEnv(p)
+	if err != nil {
+		return r.anchorFail(err)
+	}
 	for _, name := range names {
 		fn := vm[name]
 		if fn == nil {
 			return r.anchorFail(fmt.Errorf("anchor: %s not found", name))
 		}
-		var getText []*ssa.Call
-		var tvr []*ssa.Call
-		for _, b := range fn.Blocks {
-			for _, ins := range b.Instrs {
-				c, ok := ins.(*ssa.Call)
-				if !ok {
-					continue
-				}
-				if c.Common().IsInvoke() && c.Common().Method.Name() == "GetText" {
-					if _, isTA := c.Common().Value.(*ssa.TypeAssert); isTA {
-						getText = append(getText, c)
-					}
-				}
-				if sc := c.Common().StaticCallee(); sc != nil && sc.Name() == "transformedVisitResult" {
-					tvr = append(tvr, c)
-				}
-			}
-		}
-		var toks []string
-		for t := range operatorNodeMap[name] {
-			toks = append(toks, t)
-		}
-		sort.Strings(toks)
-		for _, tok := range toks {
+		for _, tok := range sortedKeys(operatorNodeMap[name]) {
 			want := operatorNodeMap[name][tok]
 			r.count("operator_tokens", 1)
-			an := newAnalyzer()
-			an.maxBlocks = 200
-			if tok != "" {
-				if len(getText) == 0 {
-					r.undecided(name+"|"+tok, "operator token read not found", p.pos(fn.Pos()), "unsupported shape")
-					continue
-				}
-				for _, gt := range getText {
-					an.pin[gt] = cStr(tok)
-				}
-			}
-			res := an.analyze(fn, []aval{nonnil("v"), nonnil("ctx")})
-			// the node handed to transformedVisitResult
-			got := nodeSpec{node: "error"}
-			for _, c := range tvr {
-				if !res.executable(c) {
-					continue
-				}
-				arg := c.Common().Args[1]
-				v := res.val(arg)
-				if v.dyn != nil {
-					got.node = strings.TrimPrefix(typeShort(v.dyn), "*expr.")
-					got.op = nodeOp(fn, res, v.dyn.String())
-				} else if isVisitResultField(arg) {
-					got.node = "passthrough"
-				} else {
-					got.node = "?" + v.String()
-				}
-			}
+			vr := env.run(fn, tok, tok != "")
 			key := fmt.Sprintf("%s|%q", name, tok)
+			if tok != "" && vr.tokReads == 0 {
+				r.undecided(name+"|"+tok, "operator token read not found", p.pos(fn.Pos()), "unsupported shape")
+				continue
+			}
+			// the node handed back
+			got := nodeSpec{node: "error"}
+			var others []string
+			for _, ret := range vr.rets {
+				switch {
+				case !ret.isVR:
+					others = append(others, "?"+ret.raw.String())
+				case ret.err.k != kNil:
+					// error result
+				case ret.node.dyn != nil:
+					g := nodeSpec{node: nodeTypeName(ret.node), op: opOfNode(ret.node)}
+					if got.node != "error" && got != g {
+						others = append(others, g.node+" "+g.op)
+					}
+					got = g
+				default:
+					if child, _ := visitedTag(ret.node); child != "" {
+						got = nodeSpec{node: "passthrough"}
+					} else {
+						got = nodeSpec{node: "?" + ret.node.String()}
+					}
+				}
+			}
 			desc := fmt.Sprintf("%s %q → %s %s (want %s %s)", strings.TrimPrefix(name, "Visit"), tok, got.node, got.op, want.node, want.op)
-			if got == want {
-				r.ok(key, desc, p.pos(fn.Pos()), "SCCP with the operator token pinned; node type and operator read from the constructed node", true)
+			if got == want && len(others) == 0 {
+				r.ok(key, desc, p.pos(fn.Pos()), "SCCP with the operator token pinned; node type and operator read from the node handed back", true)
 			} else {
+				if len(others) > 0 {
+					desc += fmt.Sprintf("; also %v", others)
+				}
 				r.bad(key, desc, p.pos(fn.Pos()), "the operator is compiled to the wrong node / operation")
 			}
 		}
@@ -954,6 +949,14 @@ func rulePARSE8(p *Program) *RuleResult {
 	if err != nil {
 		return r.anchorFail(err)
 	}
+	vm, err := visitorMethods(p)
+	if err != nil {
+		return r.anchorFail(err)
+	}
+	env, err := newVisitorEnv(p)
+	if err != nil {
+		return r.anchorFail(err)
+	}
 	var clone *ssa.Function
 	for _, fn := range p.RepoFuncs() {
 		if fn.Pkg == sp && fn.Name() == "clone" && fn.Signature.Recv() != nil {
@@ -963,58 +966,90 @@ func rulePARSE8(p *Program) *RuleResult {
 	if clone == nil {
 		return r.anchorFail(fmt.Errorf("anchor: (*FHIRPathVisitor).clone not found"))
 	}
+	binary := map[string]bool{}
+	for _, n := range binaryVisitors {
+		binary[n] = true
+	}
+	var names []string
+	for n := range vm {
+		names = append(names, n)
+	}
+	sort.Strings(names)
+	// functions the harness covers: the visitor methods and what they call directly
+	covered := map[*ssa.Function]bool{}
+	var cover func(fn *ssa.Function, depth int)
+	cover = func(fn *ssa.Function, depth int) {
+		if covered[fn] || depth > 6 {
+			return
+		}
+		covered[fn] = true
+		for _, b := range fn.Blocks {
+			for _, ins := range b.Instrs {
+				if c, ok := ins.(ssa.CallInstruction); ok {
+					if sc := c.Common().StaticCallee(); sc != nil && sc.Pkg == sp {
+						cover(sc, depth+1)
+					}
+				}
+			}
+		}
+		for _, a := range fn.AnonFuncs {
+			cover(a, depth+1)
+		}
+	}
+	for _, name := range names {
+		fn := vm[name]
+		if fn.Pkg != sp || len(fn.Blocks) == 0 {
+			continue
+		}
+		cover(fn, 0)
+		vr := env.run(fn, "", false)
+		for _, o := range vr.visits {
+			if o.recv != "visitor:clone" {
+				continue
+			}
+			r.count("clone_sites", 1)
+			key := fmt.Sprintf("%s|clone→%s", name, strings.TrimPrefix(o.arg, "operand:"))
+			if binary[name] && o.arg == "operand:Expression(1)" {
+				r.ok(key, name+" resets the visitor only for its second operand Expression(1)", p.pos(fn.Pos()), "the only Visit observed with the clone as receiver is that of ctx.Expression(1)", true)
+			} else {
+				r.bad(key, name+" visits a child other than the second operand of a binary/indexer alternative with a reset visitor", p.pos(fn.Pos()),
+					"the child is compiled as if it started a new expression: parentheses or term boundaries change how identifiers resolve, so two renderings of one tree evaluate differently")
+			}
+		}
+	}
+	// every use of clone() lies in code the harness analysed, as the receiver of a Visit
 	for _, fn := range p.RepoFuncs() {
 		if fn.Pkg != sp {
 			continue
 		}
-		n := 0
 		for _, b := range fn.Blocks {
 			for _, ins := range b.Instrs {
 				c, ok := ins.(*ssa.Call)
 				if !ok || c.Common().StaticCallee() != clone {
 					continue
 				}
-				n++
-				r.count("clone_sites", 1)
-				key := fmt.Sprintf("%s|clone#%d", short(fn), n)
-				okUse := c.Referrers() != nil
-				uses := 0
-				for _, ref := range *c.Referrers() {
-					if _, dbg := ref.(*ssa.DebugRef); dbg {
-						continue
-					}
-					uses++
-					vc, ok := ref.(*ssa.Call)
-					if !ok || vc.Common().StaticCallee() == nil || vc.Common().StaticCallee().Name() != "Visit" || len(vc.Common().Args) != 2 || vc.Common().Args[0] != ssa.Value(c) {
-						okUse = false
-						continue
-					}
-					// the visited child is ctx.Expression(1)
-					child := vc.Common().Args[1]
-					if mi, ok := child.(*ssa.MakeInterface); ok {
-						child = mi.X
-					}
-					if ci, ok := child.(*ssa.ChangeInterface); ok {
-						child = ci.X
-					}
-					ec, ok := child.(*ssa.Call)
-					if !ok || ec.Common().StaticCallee() == nil || ec.Common().StaticCallee().Name() != "Expression" || len(ec.Common().Args) != 2 {
-						okUse = false
-						continue
-					}
-					if k, ok := ec.Common().Args[1].(*ssa.Const); !ok || k.Value == nil || k.Value.ExactString() != "1" {
-						okUse = false
+				r.count("clone_calls", 1)
+				key := short(fn) + "|clone-call"
+				okUse := covered[fn] && c.Referrers() != nil
+				if okUse {
+					for _, ref := range *c.Referrers() {
+						if _, dbg := ref.(*ssa.DebugRef); dbg {
+							continue
+						}
+						vc, isCall := ref.(*ssa.Call)
+						if !isCall || vc.Common().StaticCallee() == nil || vc.Common().StaticCallee().Name() != "Visit" || len(vc.Common().Args) != 2 || vc.Common().Args[0] != ssa.Value(c) {
+							okUse = false
+						}
 					}
 				}
-				if okUse && uses > 0 {
-					r.ok(key, short(fn)+" resets the visitor only for its second operand Expression(1)", p.instrPos(ins), "the clone's only use is Visit(ctx.Expression(1))", true)
+				if okUse {
+					r.ok(key, "the clone made in "+short(fn)+" is only the receiver of a Visit, in code reached from the visitor methods", p.instrPos(ins), "use of the clone() result", true)
 				} else {
-					r.bad(key, short(fn)+" visits a child other than the second operand of a binary/indexer alternative with a reset visitor", p.instrPos(ins),
-						"the child is compiled as if it started a new expression: parentheses or term boundaries change how identifiers resolve, so two renderings of one tree evaluate differently")
+					r.bad(key, "a clone made in "+short(fn)+" is used otherwise than as the receiver of a Visit in a visitor method", p.instrPos(ins), "a reset visitor outside the binary-operand protocol")
 				}
 			}
 		}
 	}
-	r.floor("clone_sites", 8)
+	r.floor("clone_sites", 4)
 	return r
 }
